@@ -89,7 +89,7 @@ Qed.
    by its own Internal() and by the address signature *)
 Lemma subquery_internal :
   writer_internal subquery_remote = true /\ sentinel_remote subquery_remote = true /\
-  r_says subquery_remote = Some true.
+  (forall w, r_says subquery_remote = Some (go_BufferWriter_Internal w)).
 Proof. vm_compute. repeat split. Qed.
 
 (* a transport that computes Internal() by the mock writer's rule (the DoH / DoH3 writer) cannot
